@@ -41,6 +41,36 @@ theorem numStep_prev (num : Bytes) (p : Option UInt8) (b : UInt8) (hg : numStep 
     | false => simp [lfBad]
   · simp [hb]
 
+theorem step5_prev (s : PState) (p : Option UInt8) (ph ph' : Phase) (b : UInt8)
+    (hg : (step5 s ⟨p, ph⟩ b).good = true) : step5 s ⟨none, ph'⟩ b = step5 s ⟨p, ph⟩ b := by
+  unfold step5 at hg ⊢
+  by_cases hb : b = 10
+  · simp only [hb, if_true] at hg ⊢
+    cases hm : modifyAt s.args (if s.ty = 2 then 1 else 0) stripCR with
+    | none => simp [hm, Step.good] at hg
+    | some a =>
+      simp only [hm] at hg ⊢
+      cases hp : lfBad p with
+      | true => simp [hp, Step.good] at hg
+      | false => simp [lfBad]
+  · simp [hb]
+
+theorem step6_prev (s : PState) (p : Option UInt8) (ph ph' : Phase) (b : UInt8)
+    (hg : (step6 s ⟨p, ph⟩ b).good = true) : step6 s ⟨none, ph'⟩ b = step6 s ⟨p, ph⟩ b := by
+  unfold step6 at hg ⊢
+  by_cases hs : b = 32
+  · simp [hs]
+  · by_cases hb : b = 10
+    · simp only [hs, hb, if_true, if_false] at hg ⊢
+      cases hm : modifyAt s.args 0 stripCR with
+      | none => simp [hm, Step.good] at hg
+      | some a =>
+        simp only [hm] at hg ⊢
+        cases hp : lfBad p with
+        | true => simp [hp, Step.good] at hg
+        | false => simp [lfBad]
+    · simp [hs, hb]
+
 /-- forgetting the chunk-local state does not change a step that succeeds -/
 theorem step_reset (s : PState) (l : Loc) (b : UInt8) (hc : Inv s l) (hg : (step s l b).good = true) :
     step s {} b = step s l b := by
@@ -49,6 +79,18 @@ theorem step_reset (s : PState) (l : Loc) (b : UInt8) (hc : Inv s l) (hg : (step
   cases hs : s.stage with
   | s0 => simp
   | s2 => simp
+  | s5 =>
+    simp only [hs] at hg ⊢
+    by_cases hr : s.resp = true
+    · simp only [hr, if_true] at hg ⊢
+      exact step5_prev s p ph .entry b hg
+    · simp [hr]
+  | s6 =>
+    simp only [hs] at hg ⊢
+    by_cases hr : s.resp = true
+    · simp only [hr, if_true] at hg ⊢
+      exact step6_prev s p ph .entry b hg
+    · simp [hr]
   | s1 =>
     simp only [hs] at hg ⊢
     have : numStep s.num p b ≠ .err := by
@@ -121,6 +163,69 @@ theorem scanByte_inv (s : PState) (l : Loc) (b : UInt8) (hr : s.cargLen - (s.got
     intro _
     exact hr
 
+theorem Inv_of_ne (s : PState) (l : Loc) (h : s.stage ≠ .s4) : Inv s l := fun hs => absurd hs h
+
+theorem step0R_inv (s : PState) (b : UInt8) :
+    match step0R s b with
+    | .cont s' l' => Inv s' l'
+    | .emit _ s' l' => Inv s' l'
+    | _ => True := by
+  unfold step0R
+  by_cases h1 : b = 43
+  · simp only [h1, if_true]; exact Inv_of_ne _ _ (by simp)
+  · by_cases h2 : b = 45
+    · simp only [h1, h2, if_true, if_false]; exact Inv_of_ne _ _ (by simp)
+    · by_cases h3 : b = 36
+      · simp only [h1, h2, h3, if_true, if_false]; exact Inv_of_ne _ _ (by simp)
+      · by_cases h4 : b = 42
+        · simp only [h1, h2, h3, h4, if_true, if_false]; exact Inv_of_ne _ _ (by simp)
+        · simp [h1, h2, h3, h4]
+
+theorem step5_inv (s : PState) (l : Loc) (b : UInt8) (hs : s.stage = .s5) :
+    match step5 s l b with
+    | .cont s' l' => Inv s' l'
+    | .emit _ s' l' => Inv s' l'
+    | _ => True := by
+  unfold step5
+  by_cases hb : b = 10
+  · simp only [hb, if_true]
+    cases modifyAt s.args (if s.ty = 2 then 1 else 0) stripCR with
+    | none => trivial
+    | some a =>
+      simp only
+      cases lfBad l.prev with
+      | true => simp
+      | false => simp only [Bool.false_eq_true, if_false]; exact Inv_of_ne _ _ (by simp)
+  · simp only [hb, if_false]
+    cases modifyAt s.args (if s.ty = 2 then 1 else 0) (· ++ [b]) with
+    | none => trivial
+    | some a => simp only; exact Inv_of_ne _ _ (by simp [hs])
+
+theorem step6_inv (s : PState) (l : Loc) (b : UInt8) (hs : s.stage = .s6) :
+    match step6 s l b with
+    | .cont s' l' => Inv s' l'
+    | .emit _ s' l' => Inv s' l'
+    | _ => True := by
+  unfold step6
+  by_cases h32 : b = 32
+  · simp only [h32, if_true]
+    cases modifyAt s.args 0 stripCR with
+    | none => trivial
+    | some a => simp only; exact Inv_of_ne _ _ (by simp)
+  · by_cases hb : b = 10
+    · simp only [h32, hb, if_true, if_false]
+      cases modifyAt s.args 0 stripCR with
+      | none => trivial
+      | some a =>
+        simp only
+        cases lfBad l.prev with
+        | true => simp
+        | false => simp only [Bool.false_eq_true, if_false]; exact Inv_of_ne _ _ (by simp)
+    · simp only [h32, hb, if_false]
+      cases modifyAt s.args 0 (· ++ [b]) with
+      | none => trivial
+      | some a => simp only; exact Inv_of_ne _ _ (by simp [hs])
+
 /-- the invariant is preserved by every step -/
 theorem step_inv (s : PState) (l : Loc) (b : UInt8) (hc : Inv s l) :
     match step s l b with
@@ -132,9 +237,22 @@ theorem step_inv (s : PState) (l : Loc) (b : UInt8) (hc : Inv s l) :
   cases hs : s.stage with
   | s0 =>
     simp only
-    by_cases hb : b = 42
-    · simp only [hb, if_true]; intro h; simp at h
-    · simp [hb]
+    by_cases hr : s.resp = true
+    · simp only [hr, if_true]; exact step0R_inv s b
+    · simp only [hr, if_false]
+      by_cases hb : b = 42
+      · simp only [hb, if_true]; intro h; simp at h
+      · simp [hb]
+  | s5 =>
+    simp only
+    by_cases hr : s.resp = true
+    · simp only [hr, if_true]; exact step5_inv s _ b hs
+    · simp [hr]
+  | s6 =>
+    simp only
+    by_cases hr : s.resp = true
+    · simp only [hr, if_true]; exact step6_inv s _ b hs
+    · simp [hr]
   | s2 =>
     simp only
     by_cases hb : b = 36
@@ -171,8 +289,8 @@ theorem step_inv (s : PState) (l : Loc) (b : UInt8) (hc : Inv s l) :
       simp only at hc ⊢
       exact scanByte_inv s _ b hc
 
-theorem runBytes_inv (ys : Bytes) (s : PState) (l : Loc) (acc : Cmds) (hc : Inv s l)
-    (c : Cmds) (sf : PState) (lf : Loc) (h : runBytes s l acc ys = .ok c sf lf) : Inv sf lf := by
+theorem runBytes_inv (ys : Bytes) (s : PState) (l : Loc) (acc : Replies) (hc : Inv s l)
+    (c : Replies) (sf : PState) (lf : Loc) (h : runBytes s l acc ys = .ok c sf lf) : Inv sf lf := by
   induction ys generalizing s l acc with
   | nil =>
     simp only [runBytes, Run.ok.injEq] at h
@@ -187,8 +305,8 @@ theorem runBytes_inv (ys : Bytes) (s : PState) (l : Loc) (acc : Cmds) (hc : Inv 
     | panic => simp [hst] at h
 
 /-- … hence the rest of the run is unchanged -/
-theorem runBytes_reset (s : PState) (l : Loc) (acc : Cmds) (ys : Bytes) (hc : Inv s l)
-    (c : Cmds) (sf : PState) (lf : Loc) (h : runBytes s l acc ys = .ok c sf lf) :
+theorem runBytes_reset (s : PState) (l : Loc) (acc : Replies) (ys : Bytes) (hc : Inv s l)
+    (c : Replies) (sf : PState) (lf : Loc) (h : runBytes s l acc ys = .ok c sf lf) :
     ∃ lf', runBytes s {} acc ys = .ok c sf lf' := by
   cases ys with
   | nil =>
@@ -202,7 +320,7 @@ theorem runBytes_reset (s : PState) (l : Loc) (acc : Cmds) (ys : Bytes) (hc : In
     rw [runBytes, step_reset s l b hc hg, ← h, runBytes]
 
 /-- the chunked run equals the one-buffer run whenever the latter does not fail — for EVERY chunking -/
-theorem feed_eq_run (chunks : List Bytes) (s : PState) (acc : Cmds) (c : Cmds) (sf : PState) (lf : Loc)
+theorem feed_eq_run (chunks : List Bytes) (s : PState) (acc : Replies) (c : Replies) (sf : PState) (lf : Loc)
     (href : runBytes s {} acc chunks.flatten = .ok c sf lf) :
     ∃ lf', feed s acc chunks = .ok c sf lf' := by
   induction chunks generalizing s acc lf with
@@ -226,15 +344,21 @@ theorem feed_eq_run (chunks : List Bytes) (s : PState) (acc : Cmds) (c : Cmds) (
 def sizeOK (args : List Bytes) : Prop :=
   args ≠ [] ∧ args.length < 9223372036854775808 ∧ ∀ a ∈ args, a.length < 9223372036854775808
 
-theorem buildManyRun (cmds : Cmds) (h : ∀ c ∈ cmds, sizeOK c) (l : Loc) (acc : Cmds) :
-    ∃ l', runBytes {} l acc (cmds.map buildRequest).flatten = .ok (acc ++ cmds) {} l' := by
+theorem buildManyRun (cmds : Cmds) (h : ∀ c ∈ cmds, sizeOK c) (l : Loc) (acc : Replies) :
+    ∃ l', runBytes {} l acc (cmds.map buildRequest).flatten = .ok (acc ++ cmds.map (fun c => (0, c))) {} l' := by
   induction cmds generalizing l acc with
   | nil => exact ⟨l, by simp [runBytes]⟩
   | cons c cs ih =>
     have hc := h c (by simp)
     simp only [List.map_cons, List.flatten_cons]
     rw [buildRun c hc.1 hc.2.1 hc.2.2]
-    obtain ⟨l', h2⟩ := ih (fun x hx => h x (by simp [hx])) ⟨some 10, .entry⟩ (acc ++ [c])
+    obtain ⟨l', h2⟩ := ih (fun x hx => h x (by simp [hx])) ⟨some 10, .entry⟩ (acc ++ [(0, c)])
     exact ⟨l', by simpa using h2⟩
+
+theorem map_drop_ty (cmds : Cmds) :
+    List.map ((fun x : Nat × List Bytes => x.2) ∘ fun c : List Bytes => ((0 : Nat), c)) cmds = cmds := by
+  induction cmds with
+  | nil => rfl
+  | cons c cs ih => simp [ih]
 
 end Slock.Text
